@@ -111,7 +111,7 @@ Definition record_instr (st : tape * seq nat) (i : instr) : tape * seq nat :=
   | INeg r => (rcons t (Node NNeg [:: rn r]), rcons regs (size t))
   | IUn f r => (rcons t (Node (NUn f) [:: rn r]), rcons regs (size t))
   | IPow r n => (rcons t (Node (NPow n) [:: rn r]), rcons regs (size t))
-  | IZeros n => (rcons t (Node (NZeros n) [::]), rcons regs (size t))
+  | IZeros n => (rcons t (Node (NZeros n) [:: 0]), rcons regs (size t))   (* args: [shape, dtype = the traced x, order] *)
   | ISet buf k a =>
       let: (t1, na) := rec_operand t regs a in
       (rcons t1 (Node (NSet k) [:: rn buf; na]), regs)
@@ -243,4 +243,61 @@ Definition pullback (t : tape) (fs : fstate) (outs : seq nat) (ybars : seq T) : 
 Definition xbar_of (st : rstate) : seq T := nth [::] (rbheap st) 0.
 Definition gradient_like (t : tape) (outs : seq nat) (xs ybars : seq T) : seq T :=
   xbar_of (pullback t (replay t xs) outs ybars).
+
+(* ---------- CGraph.pullback as repaired: after the reverse walk the recorded in-place writes are applied again, so
+   that the buffers hold the values of the last forward evaluation and the graph can answer further sweeps ---------- *)
+Definition rollforward (t : tape) (vals : seq val) (h : heap) : heap :=
+  foldl (fun h nd =>
+    match nop nd with
+    | NSet k => match nth (VS zero) vals (nth 0 (nargs nd) 0) with
+                | VBuf b => hset h b k (nval h vals (nth 0 (nargs nd) 1))
+                | _ => h end
+    | _ => h end) h t.
+Definition pullback_fixed (t : tape) (fs : fstate) (outs : seq nat) (ybars : seq T) : rstate :=
+  let st := pullback t fs outs ybars in RState (rollforward t (fvals fs) (rheap st)) (rbheap st) (rbar st).
+
+(* ---------- well-formedness (decidable): what the recorder produces ---------- *)
+Inductive nkind := KInput | KBuf (n : nat) | KScal | KNone.
+Definition kind_of (o : nodeop) : nkind :=
+  match o with NInput => KInput | NZeros n => KBuf n | NSet _ => KNone | _ => KScal end.
+Definition is_scal (t : tape) (a : nat) : bool :=
+  match kind_of (nop (nth (Node NInput [::]) t a)) with KScal => true | _ => false end.
+Definition buf_size (t : tape) (a : nat) : option nat :=
+  match kind_of (nop (nth (Node NInput [::]) t a)) with KBuf n => Some n | _ => None end.
+(* node j of tape t, with N = number of independent variables *)
+Definition wf_node (N : nat) (t : tape) (j : nat) (nd : node) : bool :=
+  all (fun a => a < j) (nargs nd) &&
+  match nop nd with
+  | NInput => (j == 0) && (nargs nd == [::])
+  | NConst _ => (0 < j) && (nargs nd == [::])
+  | NGetX k => (0 < j) && (nargs nd == [:: 0]) && (k < N)
+  | NBin _ => (size (nargs nd) == 2) && is_scal t (nth 0 (nargs nd) 0) && is_scal t (nth 0 (nargs nd) 1)
+  | NNeg | NUn _ | NPow _ => (size (nargs nd) == 1) && is_scal t (nth 0 (nargs nd) 0)
+  | NZeros _ => 0 < j
+  | NSet k => (size (nargs nd) == 2) && is_scal t (nth 0 (nargs nd) 1) &&
+              (if buf_size t (nth 0 (nargs nd) 0) is Some n then k < n else false)
+  | NGet k => (size (nargs nd) == 1) && (if buf_size t (nth 0 (nargs nd) 0) is Some n then k < n else false)
+  end.
+Definition wf_tape (N : nat) (t : tape) : bool :=
+  (0 < size t) && all (fun j => wf_node N t j (nth (Node NInput [::]) t j)) (iota 0 (size t)).
+
+(* programs: register references in range and of the right kind (tracked while scanning) *)
+Inductive rkind := RScal | RBuf (n : nat).
+Definition wf_operand (rk : seq rkind) (o : operand) : bool :=
+  match o with OReg r => (r < size rk) && (if nth RScal rk r is RScal then true else false) | OConst _ => true end.
+Definition wf_instr (N : nat) (rk : seq rkind) (i : instr) : option (seq rkind) :=
+  let scal r := (r < size rk) && (if nth RScal rk r is RScal then true else false) in
+  let buf r k := (r < size rk) && (if nth RScal rk r is RBuf n then k < n else false) in
+  match i with
+  | IX k => if k < N then Some (rcons rk RScal) else None
+  | IBin _ a b => if wf_operand rk a && wf_operand rk b && (match a, b with OConst _, OConst _ => false | _, _ => true end)
+                  then Some (rcons rk RScal) else None
+  | INeg r | IUn _ r | IPow r _ => if scal r then Some (rcons rk RScal) else None
+  | IZeros n => Some (rcons rk (RBuf n))
+  | ISet b k a => if buf b k && wf_operand rk a then Some rk else None
+  | IGet b k => if buf b k then Some (rcons rk RScal) else None
+  end.
+Fixpoint wf_prog_from (N : nat) (rk : seq rkind) (p : seq instr) : bool :=
+  if p is i :: p' then (if wf_instr N rk i is Some rk' then wf_prog_from N rk' p' else false) else true.
+Definition wf_prog (N : nat) (p : seq instr) : bool := wf_prog_from N [::] p.
 End Tracer.
